@@ -168,9 +168,10 @@ def gen_payload(r):
     return bytes(r.choice(b"abc019 \r\n\x00\xff*?\\") for _ in range(r.range(1, 8)))
 
 
-def gen_history(r, n_ops, server_like=False):
+def gen_history(r, n_ops, server_like=False, universe=None):
     """Operation lines (protocol of the drivers, without the de-duplication flag).
-    `server_like`: only what a client can make the server do (no empty SUBSCRIBE)."""
+    `server_like`: only what a client can make the server do (no empty SUBSCRIBE).
+    `universe`: a dict that receives the channels and patterns the history draws from."""
     if r.chance(1, 2):
         chans, pats = r.choice(UNIVERSES)
         chans, pats = list(chans), list(pats)
@@ -179,6 +180,8 @@ def gen_history(r, n_ops, server_like=False):
         pats = [r.choice(PATTERNS) for _ in range(3)]
     conns = [1, 2, 3, 4]
     ops = []
+    if universe is not None:
+        universe["chans"], universe["pats"] = chans, pats
 
     def names(pool, other):
         n = r.choice([1, 1, 1, 2, 2, 3])
@@ -222,19 +225,44 @@ def op_line(op, dedup):
         return "disc %d" % op[1]
     if op[0] == "pub":
         return "pub %d %d %s %s" % (dedup, op[1], hx(op[2]), hx(op[3]))
+    if op[0] == "pipe":
+        return pipe_text(op)
+    if op[0] == "burst":
+        return burst_text(op)
     raise ValueError(op)
 
 
 def op_json(op):
-    return [x.hex() if isinstance(x, bytes) else ([y.hex() for y in x] if isinstance(x, list) else x) for x in op]
+    def enc(x):
+        if isinstance(x, bytes):
+            return {"b": x.hex()}
+        if isinstance(x, (list, tuple)):
+            return [enc(y) for y in x]
+        return x
+    return enc(op)
 
 
 def op_unjson(j):
-    op = list(j)
-    if op[0] in ("sub", "unsub"):
-        op[3] = None if op[3] is None else [bytes.fromhex(x) for x in op[3]]
-    elif op[0] == "pub":
-        op[2], op[3] = bytes.fromhex(op[2]), bytes.fromhex(op[3])
+    def dec(x, top=False):
+        if isinstance(x, dict):
+            return bytes.fromhex(x["b"])
+        if isinstance(x, list):
+            y = [dec(z) for z in x]
+            return y
+        return x
+    if j and j[0] in ("sub", "unsub", "pub", "disc") and not any(isinstance(x, dict) or (isinstance(x, list) and any(isinstance(y, dict) for y in x)) for x in j):
+        # files written before bytes were tagged
+        op = list(j)
+        if op[0] in ("sub", "unsub"):
+            op[3] = None if op[3] is None else [bytes.fromhex(x) for x in op[3]]
+        elif op[0] == "pub":
+            op[2], op[3] = bytes.fromhex(op[2]), bytes.fromhex(op[3])
+        return tuple(op)
+    op = dec(j)
+    if op[0] == "pipe":
+        op[2] = [tuple(x) for x in op[2]]
+    if op[0] == "burst":
+        op[2] = [tuple(x) for x in op[2]]
     return tuple(op)
 
 
@@ -560,6 +588,10 @@ class C14:
                      "tcp-corpus-dead-subscriber-quit")
         for mode, held, ops in ending_matrix():
             self.tcp_run(ops, "tcp-ending-%s-%s" % (mode, held))
+        for tag, ops in pipeline_corpus():
+            self.tcp_run(ops, tag)
+        for tag, ops in backlog_corpus(tier):
+            self.tcp_run(ops, tag)
         tr = r.fork("tcp")
         for i in range(40 * (8 if tier == "thorough" else 1)):
             ops = gen_tcp_history(tr, tr.range(6, 30))
@@ -611,8 +643,43 @@ def same_up_to_iteration_order(impl, code, want, dedup):
 
 
 # ------------------------------------------------------------------ TCP: the real server
+PAYLOADS = {}      # sha1(real payload) -> the short token that stands for it on the model side
+TOKEN_MIN = 65     # payloads of at least this many bytes travel to the Lean model as a token
+
+
+def burst_payload(idx, size):
+    """(real payload, model payload) of the idx-th message of a backlog: non-periodic content, so that a
+    shifted / repeated stretch cannot go unnoticed; consecutive payloads differ"""
+    import hashlib
+    if size <= 2:
+        real = bytes([idx % 251 + 1, idx // 251 % 251 + 1][:size])
+    else:
+        head = b"%d|" % idx
+        real = (head + hashlib.shake_128(b"c14-%d-%d" % (idx, size)).digest(max(size - len(head), 0)))[:size]
+    if size < TOKEN_MIN:
+        return real, real
+    h = hashlib.sha1(real).digest()
+    tok = b"#%d:%d:%s" % (idx, size, h.hex()[:10].encode())
+    PAYLOADS[h] = tok
+    return real, tok
+
+
+def payload_hex(p):
+    """payload of a received message in model notation; a large payload must be, byte for byte, one that was sent"""
+    if len(p) < TOKEN_MIN:
+        return hx(p)
+    import hashlib
+    tok = PAYLOADS.get(hashlib.sha1(p).digest())
+    if tok is not None:
+        return hx(tok)
+    # not a backlog payload: small ones are compared as they are, a large one can only be a damaged backlog payload
+    return hx(p) if len(p) <= 4096 else "CORRUPT-%d-bytes-sha1-%s" % (len(p), hashlib.sha1(p).hexdigest()[:10])
+
+
 def frame_event(f):
     """a frame read from a socket -> the event notation of the Lean driver (`showEvent`)"""
+    if f == ("s", b"PONG"):
+        return "pong"
     if f[0] == "i":
         return "n:%d" % f[1]
     if f[0] == "a" and len(f[1]) == 3 and f[1][0] in (("b", b"unsubscribe"), ("b", b"punsubscribe")) and f[1][1] == ("nb",) and f[1][2][0] == "i":
@@ -625,9 +692,9 @@ def frame_event(f):
         if kind in acks and len(xs) == 3 and xs[1][0] == "b" and xs[2][0] == "i":
             return "a:%s:%s:%d" % (acks[kind], hx(xs[1][1]), xs[2][1])
         if kind == b"message" and len(xs) == 3 and xs[1][0] == "b" and xs[2][0] == "b":
-            return "m:%s:%s" % (hx(xs[1][1]), hx(xs[2][1]))
+            return "m:%s:%s" % (hx(xs[1][1]), payload_hex(xs[2][1]))
         if kind == b"pmessage" and len(xs) == 4 and all(x[0] == "b" for x in xs):
-            return "p:%s:%s:%s" % (hx(xs[1][1]), hx(xs[2][1]), hx(xs[3][1]))
+            return "p:%s:%s:%s" % (hx(xs[1][1]), hx(xs[2][1]), payload_hex(xs[3][1]))
     return "?:" + repr(f)
 
 
@@ -662,10 +729,40 @@ class Tcp:
         self.check = check
         self.start()
 
+    def client(self, timeout=5.0):
+        srvmod = self.srvmod
+
+        class BigClient(srvmod.Client):
+            """same reader, but a multi-megabyte bulk string is collected without quadratic copying"""
+
+            def _exact(self, n, timeout):
+                if len(self.buf) >= n:
+                    d, self.buf = self.buf[:n], self.buf[n:]
+                    return d
+                parts, have = [self.buf], len(self.buf)
+                self.buf = b""
+                self.s.settimeout(self.timeout if timeout is None else timeout)
+                while have < n:
+                    try:
+                        d = self.s.recv(1 << 20)
+                    except socket.timeout:
+                        self.buf = b"".join(parts)
+                        raise TimeoutError()
+                    except OSError:
+                        raise srvmod.Closed()
+                    if not d:
+                        raise srvmod.Closed()
+                    parts.append(d)
+                    have += len(d)
+                data = b"".join(parts)
+                self.buf = data[n:]
+                return data[:n]
+        return BigClient(self.srv.port, timeout)
+
     def start(self):
         self.srv = self.srvmod.Server("c14")
         self.ctl = self.srv.client()
-        self.aux = self.srv.client(timeout=15.0)
+        self.aux = self.client(timeout=15.0)
         self.socks = {}
         self.ghosts = []     # subscription sets of connections that went away while subscribed (this history)
 
@@ -680,19 +777,155 @@ class Tcp:
         self.socks = {}
 
     def sock(self, c):
+        if c == AUX:
+            return self.aux
         if c not in self.socks:
-            self.socks[c] = self.srv.client()
+            self.socks[c] = self.client()
         return self.socks[c]
 
-    def drain(self, cl):
+    def drain(self, cl, timeout=None):
         """frames pending on `cl` up to the answer of a PING sent now"""
         cl.send("PING")
         out = []
         while True:
-            f = cl.read_reply()
+            f = cl.read_reply(timeout)
             if f == ("s", b"PONG"):
                 return out
             out.append(frame_event(f))
+
+    @staticmethod
+    def encode_cmd(cmd):
+        if cmd[0] == "sub":
+            return ["SUBSCRIBE" if cmd[1] == "c" else "PSUBSCRIBE"] + list(cmd[2])
+        if cmd[0] == "unsub":
+            return ["UNSUBSCRIBE" if cmd[1] == "c" else "PUNSUBSCRIBE"] + list(cmd[2] or [])
+        if cmd[0] == "pub":
+            return ["PUBLISH", cmd[1], cmd[2]]
+        if cmd[0] == "ping":
+            return ["PING"]
+        raise ValueError(cmd)
+
+    def pipe(self, c, cmds, split):
+        """several commands of connection `c` in ONE write (or the same bytes in two writes cut at byte
+        `split`); returns the frames read up to the answer of a PING sent afterwards, inner PONGs included,
+        and whether everything due arrived (False: gave up after a time-out)"""
+        cl = self.sock(c)
+        data = b"".join(cl.encode(self.encode_cmd(x)) for x in cmds)
+        if split is None or not (0 < split < len(data)):
+            cl.send_raw(data)
+        else:
+            cl.send_raw(data[:split])
+            time.sleep(0.003)
+            cl.send_raw(data[split:])
+        pongs = sum(1 for x in cmds if x[0] == "ping") + 1
+        cl.send("PING")
+        out = []
+        try:
+            while pongs:
+                e = frame_event(cl.read_reply(timeout=2.0))
+                if e == "pong":
+                    pongs -= 1
+                    if not pongs:
+                        break
+                out.append(e)
+        except TimeoutError:
+            return out, False
+        return out, True
+
+    def burst(self, msgs, slow, batch=40, slow_delay=0.010):
+        """a backlog: `msgs` = [(publisher, channel, real payload)] are published (pipelined, `batch` per write and
+        per publisher turn) by the main thread while one raw reader thread per connection collects what arrives;
+        the readers of the connections in `slow` start late (the output piles up in the server and the socket
+        buffers).  The server drops a client whose socket stays unwritable for about 100 ms, so "slow" means
+        late, not absent.  Returns ({publisher: [replies]}, {conn: frames})."""
+        import threading
+        conns = dict(self.socks)
+        conns[AUX] = self.aux
+
+        class Reader(threading.Thread):
+            def __init__(self, cl, delay):
+                threading.Thread.__init__(self, daemon=True)
+                self.cl, self.delay, self.chunks, self.stop, self.err = cl, delay, [], threading.Event(), None
+
+            def run(self):
+                time.sleep(self.delay)
+                s, tail, t_end = self.cl.s, b"", None
+                s.settimeout(0.05)
+                while True:
+                    try:
+                        d = s.recv(1 << 20)
+                    except socket.timeout:
+                        d = None
+                    except OSError as e:
+                        self.err = e
+                        return
+                    if d == b"":
+                        self.err = EOFError("closed by the server")
+                        return
+                    if d:
+                        self.chunks.append(d)
+                        # the answer to the PING that ends this phase (nothing else on these connections says PONG)
+                        if self.stop.is_set() and b"+PONG\r\n" in tail + d:
+                            return
+                        tail = d[-6:] if len(d) >= 6 else (tail + d)[-6:]
+                    if self.stop.is_set():
+                        t_end = t_end or time.time() + 90
+                        if time.time() > t_end:
+                            self.err = TimeoutError("no answer to PING within 90 s")
+                            return
+
+        raw = {c: [cl.buf] for c, cl in conns.items()}
+        for cl in conns.values():
+            cl.buf = b""
+
+        def phase(which, delays):
+            rs = {c: Reader(conns[c], delays.get(c, 0)) for c in which}
+            for r in rs.values():
+                r.start()
+            return rs
+
+        def finish(rs):
+            for c, r in rs.items():
+                r.stop.set()
+                conns[c].s.sendall(conns[c].encode(["PING"]))
+            for c, r in rs.items():
+                r.join(120)
+                raw[c].extend(r.chunks)
+            return [r.err for r in rs.values() if r.err is not None]
+
+        rs = phase(list(conns), {c: slow_delay for c in slow})
+        i = 0
+        while i < len(msgs):
+            pc, j = msgs[i][0], i
+            while j < len(msgs) and msgs[j][0] == pc and j - i < batch:
+                j += 1
+            cl = conns[pc] if pc in conns else self.sock(pc)
+            if pc not in conns:          # a publisher that connects now
+                conns[pc] = cl
+                raw[pc] = []
+                rs[pc] = Reader(cl, 0)
+                rs[pc].start()
+            cl.s.sendall(b"".join(cl.encode(["PUBLISH", ch, payload]) for _, ch, payload in msgs[i:j]))
+            i = j
+        pubs = sorted(set(m[0] for m in msgs))
+        errs = finish({c: rs[c] for c in pubs})                       # every PUBLISH has been executed
+        errs += finish({c: r for c, r in rs.items() if c not in pubs})
+        again = phase(pubs, {})                                       # what reached the publishers after their PONG
+        errs += finish(again)
+        replies, got = {}, {}
+        for c, cl in conns.items():
+            cl.buf = b"".join(raw[c])
+            evs = []
+            while cl.buf:
+                e = frame_event(cl.read_reply(timeout=0.5))
+                if e != "pong":
+                    evs.append(e)
+            replies[c] = [e for e in evs if e.startswith("n:")]
+            if c != AUX:
+                got[c] = [e for e in evs if not e.startswith("n:")]
+        if errs:
+            raise self.srvmod.Closed("during a backlog: %s" % errs[0])
+        return replies, got
 
     def reset(self):
         """leave cleanly (so that nothing of this history stays subscribed on the server)"""
@@ -824,6 +1057,50 @@ def canon_events(events, unsub_all):
     return ints, sorted(rest)
 
 
+def is_msg(e):
+    return e.startswith("m:") or e.startswith("p:")
+
+
+def cut(flat, sizes):
+    """`flat` cut into consecutive chunks of the given sizes; None when the total differs"""
+    if sum(sizes) != len(flat):
+        return None
+    out, k = [], 0
+    for n in sizes:
+        out.append(flat[k:k + n])
+        k += n
+    return out
+
+
+def group_sort(events):
+    """messages of one PUBLISH to one connection (same channel and payload, consecutive) in sorted order:
+    which of them comes first depends on hash-map order; everything else keeps its place"""
+    out, grp, key = [], [], None
+    for e in events:
+        k = tuple(e.split(":")[-2:]) if is_msg(e) else None
+        if k is None or k != key:
+            out.extend(sorted(grp))
+            grp = []
+        key = k
+        if k is None:
+            out.append(e)
+        else:
+            grp.append(e)
+    out.extend(sorted(grp))
+    return out
+
+
+def first_diff(a, b):
+    for k in range(min(len(a), len(b))):
+        if a[k] != b[k]:
+            return k
+    return min(len(a), len(b))
+
+
+def short(e):
+    return e if len(e) <= 90 else e[:60] + "…(%d chars)" % len(e)
+
+
 def matching_channels(h, seen):
     """channels on which a connection holding `h` receives something: those it subscribed to, and the
     channels used so far that one of its patterns matches"""
@@ -832,6 +1109,207 @@ def matching_channels(h, seen):
         if ch not in out and any(spec_glob(p, ch) for p in h["p"]):
             out.append(ch)
     return out
+
+
+def recv_diff(check, prev, c):
+    m = split_cs(check.ask_model("recv %d %d %d" % (check.dedup, check.idle, c)), ("C", "S"))
+    ec, es = parse_events(m["C"]), parse_events(m["S"])
+    new_c, new_s = ec[len(prev[c][0]):], es[len(prev[c][1]):]
+    prev[c] = (ec, es)
+    return new_c, new_s
+
+
+def pipe_step(check, tcp, i, op, orc, prev, seen, fails, dis, record):
+    """several commands of one connection in one write (or the same bytes in two writes): every command gets
+    its acknowledgement(s) / count, in command order; the messages are the model's, in publish order; a message
+    caused by a PUBLISH of the same write comes after the acknowledgements of the (un)subscriptions before it"""
+    rep = check.rep
+    c, cmds, split = op[1], op[2], op[3]
+    line = pipe_text(op)
+    real, complete = tcp.pipe(c, cmds, split)
+    got = {c: real}
+    tcp.drain_rest(got)
+    chunks = {x: {"C": [], "S": []} for x in (1, 2, 3, 4)}
+    for cmd in cmds:
+        if cmd[0] == "ping":
+            for x in (1, 2, 3, 4):
+                for side in "CS":
+                    chunks[x][side].append(["pong"] if x == c else [])
+            continue
+        if cmd[0] == "sub":
+            check.ask_model(op_line(("sub", c, cmd[1], cmd[2]), check.dedup))
+            orc.sub(c, cmd[1], cmd[2])
+            seen.update(cmd[2] if cmd[1] == "c" else [])
+        elif cmd[0] == "unsub":
+            check.ask_model(op_line(("unsub", c, cmd[1], cmd[2]), check.dedup))
+            orc.unsub(c, cmd[1], cmd[2])
+        else:
+            check.ask_model(op_line(("pub", c, cmd[1], cmd[2]), check.dedup))
+            seen.add(cmd[1])
+        for x in (1, 2, 3, 4):
+            nc, ns = recv_diff(check, prev, x)
+            chunks[x]["C"].append(nc)
+            chunks[x]["S"].append(ns)
+    if record:
+        rep.evaluations += len(cmds)
+        rep.count("tcp.op.pipe")
+        rep.count("tcp.pipe.commands", len(cmds))
+        shape = "".join({"sub": "S", "unsub": "U", "pub": "P", "ping": "g"}[x[0]] for x in cmds)
+        rep.count("tcp.pipe.%s" % ("one-write" if split is None else "two-writes"))
+        held_pub = any(x[0] == "pub" and any(ev for ev in ch if is_msg(ev)) for x, ch in zip(cmds, chunks[c]["S"]))
+        rep.nontrivial(("tcp-pipe", shape[:6], split is not None, held_pub))
+        if held_pub:
+            rep.count("tcp.pipe.publish-to-own-subscription")
+    base = {"i": i, "op": line, "layer": "tcp", "conn": c}
+
+    def canon_reply(cmd, chunk):
+        if cmd[0] == "unsub" and cmd[2] is None:
+            ints, rest = canon_events(chunk, True)
+            return ints + rest
+        return list(chunk)
+
+    for side in "SC":
+        # -- the pipelining connection: replies and messages apart
+        exp_rep = [[e for e in ch if not is_msg(e)] for ch in chunks[c][side]]
+        exp_msg = [sorted(e for e in ch if is_msg(e)) for ch in chunks[c][side]]
+        real_rep = [e for e in real if not is_msg(e)]
+        real_msg = [e for e in real if is_msg(e)]
+        rr = cut(real_rep, [len(x) for x in exp_rep])
+        rm = cut(real_msg, [len(x) for x in exp_msg])
+        ok_rep = rr is not None and all(canon_reply(cmd, a) == canon_reply(cmd, b) for cmd, a, b in zip(cmds, rr, exp_rep))
+        ok_msg = rm is not None and all(sorted(a) == b for a, b in zip(rm, exp_msg))
+        flat_exp = [e for ch in chunks[c][side] for e in ch]
+        if side == "S":
+            if not ok_rep:
+                fails.append(dict(base, kind="pipeline", shape="replies", impl="|".join(map(short, real_rep[:16])) or ".",
+                                  want="|".join(map(short, [e for ch in exp_rep for e in ch][:16])) or ".", complete=complete,
+                                  why="pipelined commands did not each get their acknowledgement(s) / delivery count, in order"))
+            if not ok_msg:
+                fails.append(dict(base, kind="pipeline", shape="messages", impl="|".join(map(short, real_msg[:16])) or ".",
+                                  want="|".join(map(short, [e for ch in exp_msg for e in ch][:16])) or ".",
+                                  why="messages read by the pipelining connection differ from one per matching subscription, in publish order"))
+            if ok_rep and ok_msg:
+                # a message comes after the acknowledgements of the (un)subscriptions that precede its PUBLISH in the write
+                last, k, pos = {}, 0, [p for p, e in enumerate(real) if not is_msg(e)]
+                for j, ch in enumerate(exp_rep):
+                    if ch:
+                        last[j] = pos[k + len(ch) - 1]
+                    k += len(ch)
+                mpos, k = [p for p, e in enumerate(real) if is_msg(e)], 0
+                for q, ch in enumerate(exp_msg):
+                    for _ in ch:
+                        for j in range(q):
+                            if cmds[j][0] in ("sub", "unsub") and j in last and last[j] > mpos[k]:
+                                fails.append(dict(base, kind="pipeline", shape="order", impl="|".join(map(short, real[:16])),
+                                                  want="acknowledgement of command %d before the message of command %d" % (j, q),
+                                                  why="a message was delivered before the acknowledgement of an earlier (un)subscription of the same write"))
+                        k += 1
+        elif not (ok_rep and ok_msg):
+            dis.append(dict(base, impl="|".join(map(short, real[:16])) or ".", code="|".join(map(short, flat_exp[:16])) or "."))
+        # -- the other connections: what the pipeline's PUBLISHes delivered to them, in publish order
+        for x in (1, 2, 3, 4):
+            if x == c:
+                continue
+            exp = [sorted(ch) for ch in chunks[x][side]]
+            rx = cut(got.get(x, []), [len(e) for e in exp])
+            if rx is None or any(sorted(a) != b for a, b in zip(rx, exp)):
+                d = dict(base, conn=x, impl="|".join(map(short, got.get(x, [])[:16])) or ".")
+                if side == "S":
+                    fails.append(dict(d, kind="stream", shape="other", want="|".join(map(short, [e for ch in exp for e in ch][:16])) or ".",
+                                      why="frames read by connection %d differ from one per matching subscription (publisher pipelined)" % x))
+                else:
+                    dis.append(dict(d, code="|".join(map(short, [e for ch in exp for e in ch][:16])) or "."))
+
+
+def burst_step(check, tcp, i, op, orc, prev, seen, fails, dis, record, bidx):
+    """a backlog: many / large messages from several publishers while the `slow` connections read nothing;
+    afterwards every stream must parse and be the model's per-subscriber sequence, byte for byte"""
+    rep = check.rep
+    slow, specs = set(op[1]), op[2]
+    line = burst_text(op)
+    msgs, lines = [], []
+    for k, (pc, ch, size) in enumerate(specs):
+        real, tok = burst_payload(bidx + k, size)
+        msgs.append((pc, ch, real))
+        lines.append((pc, op_line(("pub", pc, ch, tok), check.dedup)))
+        seen.add(ch)
+    replies, got = tcp.burst(msgs, slow)
+    want_c, want_s = {}, {}
+    for pc, l in lines:
+        m = split_cs(check.ask_model(l), ("C", "S"))
+        want_c.setdefault(pc, []).append("n:%d" % len(parse_dels(m["C"])))
+        want_s.setdefault(pc, []).append("n:%d" % len(parse_dels(m["S"])))
+    total = sum(x[2] for x in specs)
+    if record:
+        rep.evaluations += len(specs)
+        rep.count("tcp.op.burst")
+        rep.count("tcp.burst.messages", len(specs))
+        rep.count("tcp.burst.bytes-published", total)
+        for _, _, size in specs:
+            rep.count("tcp.burst.size.%s" % ("<=64B" if size <= 64 else "<=64KiB" if size <= 65536 else "<=2MiB" if size <= (2 << 20) else ">2MiB"))
+        rep.nontrivial(("tcp-burst", min(len(specs), 2000) // 500, max(x[2] for x in specs).bit_length() // 4, len(slow), len(set(x[0] for x in specs))))
+    base = {"i": i, "op": line, "layer": "tcp"}
+    for pc in want_s:
+        r = replies.get(pc, [])
+        if r != want_s[pc]:
+            k = first_diff(r, want_s[pc])
+            fails.append(dict(base, kind="publish", shape="burst", conn=pc, impl="|".join(r[k:k + 6]) or ".", want="|".join(want_s[pc][k:k + 6]) or ".",
+                              why="reply %d of %d pipelined PUBLISHes of connection %d is not the number of deliveries" % (k, len(want_s[pc]), pc)))
+        elif r != want_c[pc]:
+            dis.append(dict(base, conn=pc, impl="|".join(r[:6]), code="|".join(want_c[pc][:6])))
+    # publishes of DIFFERENT publishers are concurrent (the server takes the connections in its own order and a large
+    # command takes many iterations to arrive): a subscriber's stream is compared publisher by publisher
+    owner = {}
+    for (pc, ch, size), (_, _, real_pl) in zip(specs, msgs):
+        owner[payload_hex(real_pl)] = pc
+
+    def by_publisher(events):
+        d = {}
+        for e in events:
+            d.setdefault(owner.get(e.rsplit(":", 1)[1], "nobody"), []).append(e)
+        return {k: group_sort(v) for k, v in d.items()}
+
+    for x in (1, 2, 3, 4):
+        nc, ns = recv_diff(check, prev, x)
+        real = by_publisher(got.get(x, []))
+        es = by_publisher([e for e in ns if not e.startswith("n:")])
+        ec = by_publisher([e for e in nc if not e.startswith("n:")])
+        n_real, n_due = sum(map(len, real.values())), sum(map(len, es.values()))
+        if record:
+            rep.evaluations += 1
+            if x in slow and n_due:
+                rep.count("tcp.burst.backlog-frames-read-late", n_due)
+        if real != es:
+            pc = next(k for k in sorted(set(real) | set(es), key=str) if real.get(k) != es.get(k))
+            a, b = real.get(pc, []), es.get(pc, [])
+            k = first_diff(a, b)
+            corrupt = any(e.find("CORRUPT") >= 0 for v in real.values() for e in v)
+            fails.append(dict(base, kind="stream", shape="backlog", conn=x, publisher=pc, frames_read=n_real, frames_due=n_due, first_difference_at=k,
+                              impl="|".join(map(short, a[k:k + 4])) or ".", want="|".join(map(short, b[k:k + 4])) or ".",
+                              why="the %s subscriber %d did not read publisher %s's messages as published, in order%s" % (
+                                  "slow" if x in slow else "fast", x, pc, " (a payload is not one that was published)" if corrupt else "")))
+        elif real != ec:
+            pc = next(k for k in sorted(set(real) | set(ec), key=str) if real.get(k) != ec.get(k))
+            dis.append(dict(base, conn=x, publisher=pc, impl="|".join(map(short, real.get(pc, [])[:4])) or ".", code="|".join(map(short, ec.get(pc, [])[:4])) or "."))
+    return bidx + len(specs)
+
+
+def cmd_text(x):
+    if x[0] == "ping":
+        return "PING"
+    if x[0] == "pub":
+        return "PUBLISH %s %s" % (hx(x[1]), hx(x[2]))
+    return "%s%s %s" % ("P" if x[1] == "p" else "", "SUBSCRIBE" if x[0] == "sub" else "UNSUBSCRIBE", "*" if x[2] is None else hexlist(x[2]))
+
+
+def pipe_text(op):
+    return "pipe %d [%s]%s" % (op[1], " | ".join(cmd_text(x) for x in op[2]), "" if op[3] is None else " cut@%d" % op[3])
+
+
+def burst_text(op):
+    specs = op[2]
+    head = ", ".join("%d>%s:%dB" % (pc, hx(ch), size) for pc, ch, size in specs[:6])
+    return "burst slow=%s %d messages %d bytes [%s%s]" % (sorted(op[1]), len(specs), sum(x[2] for x in specs), head, ", …" if len(specs) > 6 else "")
 
 
 def tcp_history(check, tcp, ops, record=True):
@@ -853,6 +1331,7 @@ def tcp_history(check, tcp, ops, record=True):
     orc = Oracle()
     prev = {c: ([], []) for c in (1, 2, 3, 4)}
     seen = set()
+    state = {"bidx": 0}
 
     def expand(op):
         """the steps one operation of the history consists of"""
@@ -898,13 +1377,23 @@ def tcp_history(check, tcp, ops, record=True):
                         rep.count("tcp.end.%s.%s" % (mode, "subscribed" if h and (h["c"] or h["p"]) else "not-subscribed"))
                         rep.nontrivial(("tcp-end", mode, bool(h and h["c"]), bool(h and h["p"]), queued))
                     line = "end %d %s %s" % (c, mode, hx(ch))
+                elif op[0] == "pipe":
+                    pipe_step(check, tcp, i, op, orc, prev, seen, fails, dis, record)
+                    continue
+                elif op[0] == "burst":
+                    state["bidx"] = burst_step(check, tcp, i, op, orc, prev, seen, fails, dis, record, state["bidx"])
+                    continue
                 else:
                     got, reply = tcp.do(op)
                     line = op_line(op, check.dedup)
                     lines.append(line)
             except (TimeoutError, tcp.srvmod.Closed, tcp.srvmod.ProtocolError, OSError) as e:
-                fails.append({"i": i, "kind": "total", "op": line0, "impl": "%s: %s" % (type(e).__name__, e), "layer": "tcp",
-                              "why": "no (well-formed) reply from the server; alive=%s %s" % (tcp.srv.alive(), tcp.srv.log_tail(300))})
+                if isinstance(e, tcp.srvmod.ProtocolError):
+                    fails.append({"i": i, "kind": "stream", "shape": "unparsable", "op": line0, "impl": "%s: %s" % (type(e).__name__, e), "layer": "tcp",
+                                  "why": "the bytes a connection read do not parse as RESP frames (messages not intact)"})
+                else:
+                    fails.append({"i": i, "kind": "total", "op": line0, "impl": "%s: %s" % (type(e).__name__, e), "layer": "tcp",
+                                  "why": "no (well-formed) reply from the server; alive=%s %s" % (tcp.srv.alive(), tcp.srv.log_tail(300))})
                 tcp.ghosts.append({"c": [], "p": []})     # force a fresh server for the next history
                 return fails, dis
             base0 = {"i": i, "op": line, "layer": "tcp"}
@@ -1020,9 +1509,99 @@ def tcp_history(check, tcp, ops, record=True):
     return fails, dis
 
 
+def gen_pipe(r, c, chans, pats):
+    """2-7 commands of one connection for one write: subscribe-family commands, PUBLISH to channels it may or may
+    not hold, PING"""
+    cmds = []
+    for _ in range(r.range(2, 7)):
+        k = r.below(100)
+        if k < 22:
+            cmds.append(("sub", "c", [r.choice(chans) for _ in range(r.choice([1, 1, 2]))]))
+        elif k < 38:
+            cmds.append(("sub", "p", [r.choice(pats) for _ in range(r.choice([1, 1, 2]))]))
+        elif k < 48:
+            cmds.append(("unsub", r.choice(["c", "p"]), [r.choice(chans + pats) for _ in range(r.choice([1, 2]))]))
+        elif k < 56:
+            cmds.append(("unsub", r.choice(["c", "p"]), None))
+        elif k < 88:
+            cmds.append(("pub", r.choice(chans), gen_payload(r)[:20]))
+        else:
+            cmds.append(("ping",))
+    n = sum(len(Tcp_encode_len(x)) for x in cmds)
+    split = None if r.chance(1, 2) else r.range(1, max(n - 1, 1))
+    return ("pipe", c, cmds, split)
+
+
+def Tcp_encode_len(cmd):
+    import server as srvmod
+    return srvmod.Client.encode(Tcp.encode_cmd(cmd))
+
+
+BURST_SIZES = [1, 2, 64, 65, 100, 1000, 5000, 70000, 300000]
+
+
+def gen_burst(r, chans):
+    slow = [r.choice([1, 2, 3, 4])]
+    if r.chance(1, 3):
+        slow.append(r.choice([1, 2, 3, 4]))
+    slow = sorted(set(slow))
+    pubs = [c for c in (1, 2, 3, 4, AUX) if c not in slow]
+    specs = [(r.choice(pubs), r.choice(chans), r.choice(BURST_SIZES)) for _ in range(r.range(3, 40))]
+    return ("burst", slow, specs)
+
+
 def gen_tcp_history(r, n_ops):
-    ops = gen_history(r, n_ops, server_like=True)
-    return [(o[0], o[1], r.choice(END_MODES)) if o[0] == "disc" else o for o in ops]
+    u = {}
+    ops = gen_history(r, n_ops, server_like=True, universe=u)
+    out = []
+    for o in ops:
+        k = r.below(100)
+        if k < 14:
+            out.append(gen_pipe(r, r.choice([1, 2, 3, 4]), u["chans"], u["pats"]))
+        elif k < 17:
+            out.append(gen_burst(r, u["chans"]))
+        out.append((o[0], o[1], r.choice(END_MODES)) if o[0] == "disc" else o)
+    return out
+
+
+def pipeline_corpus():
+    """[(tag, history)]: pipelines that mix subscribe-family commands, PUBLISH to channels the same connection holds /
+    does not hold, PING, with another connection subscribed; the first one also in EVERY two-way split of its bytes"""
+    setup = [("sub", 2, "c", [b"a"]), ("sub", 2, "p", [b"b*"])]
+    p1 = [("sub", "c", [b"a"]), ("pub", b"a", b"m1"), ("sub", "p", [b"b*", b"a*"]), ("pub", b"a", b"m2"), ("unsub", "c", None),
+          ("pub", b"a", b"m3"), ("pub", b"bb", b"m4"), ("ping",), ("unsub", "p", None), ("pub", b"a", b"m5"), ("unsub", "c", [b"zz"])]
+    p2 = [("pub", b"a", b"x"), ("ping",), ("sub", "c", [b"a", b"bb"]), ("ping",), ("pub", b"bb", b"y"), ("pub", b"nobody", b"z"),
+          ("sub", "p", [b"*"]), ("pub", b"a", b"w"), ("unsub", "c", [b"a"]), ("unsub", "p", [b"*"]), ("pub", b"a", b"v"), ("ping",)]
+    n1 = sum(len(Tcp_encode_len(x)) for x in p1)
+    out = [("tcp-pipe-one-write", setup + [("pipe", 1, p1, None), ("pub", 3, b"a", b"after"), ("pipe", 3, p2, None), ("pipe", 1, p2, None)])]
+    for cutpos in range(1, n1):
+        out.append(("tcp-pipe-split", setup + [("pipe", 1, p1, cutpos), ("pub", 3, b"a", b"after")]))
+    k, bounds = 0, []
+    for x in p2:
+        k += len(Tcp_encode_len(x))
+        bounds += [k - 3, k, k + 5]
+    n2 = sum(len(Tcp_encode_len(x)) for x in p2)
+    for cutpos in sorted(set(b for b in bounds if 0 < b < n2)):
+        out.append(("tcp-pipe-split", setup + [("pipe", 4, p2, cutpos), ("pub", 1, b"a", b"after")]))
+    return out
+
+
+def backlog_corpus(tier):
+    """[(tag, history)]: slow subscribers (a channel and a pattern subscriber that read nothing during the burst) and a
+    fast one on the same channel; several publishers; one very large message, a ladder of sizes, many small messages"""
+    setup = [("sub", 1, "c", [b"big"]), ("sub", 2, "p", [b"b*"]), ("sub", 3, "c", [b"big"]), ("sub", 3, "p", [b"*g"])]
+    out = [("tcp-backlog-16MiB", setup + [("burst", [1, 2], [(4, b"big", 8), (AUX, b"big", 16 << 20), (4, b"big", 5)]),
+                                          ("pub", 4, b"big", b"after"), ("unsub", 1, "c", None)]),
+           ("tcp-backlog-ladder", setup + [("burst", [1, 2], [(p, b"big", n) for n, p in zip([1, 2, 64, 65, 1000, 65536, 1 << 20, 4 << 20, 3, 2 << 20], [4, AUX, 3, 4, AUX, 3, 4, AUX, 3, 4])]),
+                                           ("pub", 4, b"big", b"after")]),
+           ("tcp-backlog-many-small", setup + [("burst", [1, 2], [((4, AUX, 3)[k % 3], b"big", 4096 + k % 7) for k in range(1500)]),
+                                               ("pub", 4, b"big", b"after"), ("disc", 1, "close"), ("pub", 4, b"big", b"x")])]
+    if tier == "thorough":
+        out.append(("tcp-backlog-2x16MiB", setup + [("burst", [1, 2], [(4, b"big", 16 << 20), (AUX, b"big", 8 << 20), (3, b"big", 16 << 20), (4, b"big", 1)]),
+                                                    ("pub", 4, b"big", b"after")]))
+        out.append(("tcp-backlog-many-small", setup + [("burst", [2], [((4, AUX, 1)[k % 3], b"big", 200 + k % 11) for k in range(20000)]),
+                                                       ("pub", 4, b"big", b"after")]))
+    return out
 
 
 def ending_matrix():
@@ -1084,7 +1663,14 @@ def main(tier, seed):
                 "pipelined, FIN / RST while a message for it is queued behind SLEEP+PUBLISH in one write, RST inside an unread burst of 60 publishes), "
                 "the full matrix way x {channel, pattern, both} runs first; after every ending the harness's own publisher probes every channel the "
                 "connection was receiving on (the model says a disconnected connection holds nothing); after every operation every live socket is "
-                "drained up to a PING barrier and the frames are compared with the per-connection streams of Code and Spec. "
+                "drained up to a PING barrier and the frames are compared with the per-connection streams of Code and Spec. Pipelines: 2-12 commands of "
+                "one connection in ONE write (subscribe-family, PUBLISH to channels it holds / does not hold, PING), also cut into two writes (one "
+                "pipeline at EVERY byte position, the others at and around command boundaries and at random positions), other connections in between: "
+                "every command gets its acknowledgement(s)/count in order, messages in publish order and after the acknowledgements of earlier "
+                "(un)subscriptions of the same write. Backlogs: slow subscribers (channel and pattern) that read nothing while several publishers "
+                "pipeline N messages of 1 B .. 16 MiB (one 16 MiB message, a ladder of sizes, 1500 x 4 KiB; random ones in the histories), a fast "
+                "subscriber on the same channel: afterwards every stream must parse and equal the model's per-subscriber sequence byte for byte "
+                "(large payloads are compared by content and travel to the Lean model as tokens). "
                 "distinct = (operation, kind, sizes, outcome class) tuples")
     rep.assumptions = [
         "HashMap/HashSet iteration order is arbitrary: acknowledgements of an argument-less (P)UNSUBSCRIBE and receiver lists are compared as multisets; "
